@@ -10,7 +10,8 @@ import (
 )
 
 // C17, sliding-window clause: insert/delete churn at a bounded size over an
-// unbounded stream of FRESH keys. Every (group shape, deletion order) pair of
+// unbounded stream of FRESH keys (window of two groups, and window zero: the
+// tree is emptied after every group). Every (group shape, deletion order) pair of
 // the listed shapes is pumped; a structure that leaves something behind per
 // key group (an unmerged node, a pinned ancestor) grows without bound here even
 // though churn over the same keys stays flat.
@@ -217,14 +218,18 @@ func ExploreChurn(job, tier string, deadline time.Duration) *Result {
 		return res
 	}
 	maxGrowth := int64(0)
-	run := func(sh churnShape, ord []int) *Violation {
+	churnGroups := churnGroups
+	if tier == "thorough" {
+		churnGroups *= 5 // same threshold: a leak of two thirds of a byte per key group crosses it
+	}
+	run := func(sh churnShape, ord []int, win int) *Violation {
 		t := mkTree()
 		step := func(g int) string {
 			for _, k := range sh.keys(g) {
 				t.insert(k)
 			}
-			if g >= 2 {
-				old := sh.keys(g - 2)
+			if g >= win {
+				old := sh.keys(g - win)
 				for _, i := range ord {
 					if !t.delete(old[i]) {
 						return fmt.Sprintf("Delete(%q) = false for a stored key", old[i])
@@ -249,13 +254,16 @@ func ExploreChurn(job, tier string, deadline time.Duration) *Result {
 		if g > maxGrowth {
 			maxGrowth = g
 		}
-		what := fmt.Sprintf("%s: sliding window of 2 groups of shape %q (e.g. %q), each group deleted in order %v", t.name, sh.name, sh.keys(0), ord)
+		what := fmt.Sprintf("%s: sliding window of %d groups of shape %q (e.g. %q), each group deleted in order %v", t.name, win, sh.name, sh.keys(0), ord)
+		if win == 0 {
+			what = fmt.Sprintf("%s: fill-and-empty cycles with fresh keys of shape %q (e.g. %q), deleted in order %v: the tree is empty after every cycle", t.name, sh.name, sh.keys(0), ord)
+		}
 		if g > c17Threshold {
-			return viol("live heap growth over "+fmt.Sprint(churnGroups)+" window steps at bounded size; "+what, fmt.Sprintf("<= %d bytes", c17Threshold), fmt.Sprintf("%d bytes (%.1f per key group)", g, float64(g)/churnGroups))
+			return viol("live heap growth over "+fmt.Sprint(churnGroups)+" window steps at bounded size; "+what, fmt.Sprintf("<= %d bytes", c17Threshold), fmt.Sprintf("%d bytes (%.1f per key group)", g, float64(g)/float64(churnGroups)))
 		}
 		// empty the tree: only a small constant may stay
 		last := churnWarm + churnGroups
-		for gg := last - 2; gg < last; gg++ {
+		for gg := last - win; gg < last; gg++ {
 			old := sh.keys(gg)
 			for _, i := range ord {
 				t.delete(old[i])
@@ -281,8 +289,21 @@ func ExploreChurn(job, tier string, deadline time.Duration) *Result {
 			}
 			st.Evaluations++
 			st.Nontrivial++
-			if v := run(sh, ord); v != nil {
-				if v2 := run(sh, ord); v2 == nil {
+			v := run(sh, ord, 2)
+			if v == nil {
+				// the tree empties after every group (the delete path of the last key, the emptied tree's leftovers)
+				st.Evaluations++
+				st.Nontrivial++
+				if v = run(sh, ord, 0); v != nil {
+					v.Tags = append(v.Tags, "window-0")
+				}
+			}
+			if v != nil {
+				win := 2
+				if len(v.Tags) > 0 {
+					win = 0
+				}
+				if v2 := run(sh, ord, win); v2 == nil {
 					res.HarnessErr = "heap measurement did not reproduce: " + v.String()
 					return res
 				}
@@ -295,6 +316,6 @@ func ExploreChurn(job, tier string, deadline time.Duration) *Result {
 		}
 	}
 	st.Extra = map[string]float64{"max_growth_bytes_sliding_window": float64(maxGrowth)}
-	st.Samples = append(st.Samples, fmt.Sprintf("%s: every (group shape, deletion order) pair of %d shapes, %d window steps each, e.g. shape %q = %q", job, len(shapes), churnGroups, shapes[0].name, shapes[0].keys(0)))
+	st.Samples = append(st.Samples, fmt.Sprintf("%s: every (group shape, deletion order, window 2|0) triple of %d shapes, %d window steps each, e.g. shape %q = %q", job, len(shapes), churnGroups, shapes[0].name, shapes[0].keys(0)))
 	return res
 }
